@@ -1063,12 +1063,12 @@ def c08_n9(ctx):
             base = "%s:delayed_checks.%s" % (fname, last)
             cnt[base] = cnt.get(base, 0) + 1
             key = base + ("#%d" % cnt[base] if cnt[base] > 1 else "")
-            if last in ("clear", "retain") :
+            if last in ("clear", "retain", "retain_mut", "truncate", "pop", "remove", "swap_remove", "dedup", "dedup_by", "dedup_by_key"):
                 yield bad("C08-N9", key, at(f, t["span"]["line"]), "pending delayed checks are dropped by %s: a gap detected earlier is never asked for" % last)
-            elif last in DELAYED_OK:
-                yield ok("C08-N9", key, at(f, t["span"]["line"]), last)
+            elif last in ("last_mut", "first_mut", "get_mut", "index_mut", "swap", "sort", "sort_by", "sort_by_key", "sort_unstable_by_key", "reverse", "rotate_left", "rotate_right", "fill", "split_first_mut", "split_last_mut"):
+                yield bad("C08-N9", key, at(f, t["span"]["line"]), "a pending delayed check is edited through %s (re-timed, re-aimed or re-ordered): the gap it stands for is requested later than its own delay, or not at all" % last)
             else:
-                yield bad("C08-N9", key, at(f, t["span"]["line"]), "a pending delayed check is edited through %s (re-timed or its window changed): the gap it stands for is requested later than its own delay, or not at all" % last)
+                yield ok("C08-N9", key, at(f, t["span"]["line"]), last)
         # entries reached through iter_mut(): only polled
         for b, t in f.all_calls():
             eu = ebu.call(b, t)
